@@ -687,8 +687,24 @@ impl PersistenceState {
             );
         }
         let mut manifest = Manifest::load(&manifest_path)?;
-        manifest.wal_segments.push(new_wal_name);
-        manifest.save(&manifest_path)?;
+        manifest.wal_segments.push(new_wal_name.clone());
+        if let Err(save_err) = manifest.save(&manifest_path) {
+            // `save` can fail after its rename already took effect (e.g. the directory fsync
+            // failed). If the on-disk MANIFEST now lists the new segment we must switch to it:
+            // staying on the old segment would make the next snapshot treat the still-active
+            // old segment as compactable and unlink it under the writer, losing every later
+            // acknowledged write.
+            match Manifest::load(&manifest_path) {
+                Ok(on_disk) if on_disk.wal_segments.last() == Some(&new_wal_name) => {
+                    warn!(
+                        error = %save_err,
+                        new = %new_wal_path.display(),
+                        "MANIFEST save reported an error after publishing the new WAL segment; switching to it"
+                    );
+                }
+                _ => return Err(save_err),
+            }
+        }
 
         *wal_guard = new_writer;
         info!(
